@@ -662,6 +662,9 @@ func parseCommand(def *stepDef, step *Step) error {
 
 	case []any:
 		// Case 3: command is an array
+		if len(val) == 0 {
+			return errStepCommandIsEmpty
+		}
 		for _, v := range val {
 			val, ok := v.(string)
 			if !ok {
